@@ -418,7 +418,8 @@ def prepare_instance(inst, wd):
                                   'seq': seq, 'nthreads': inst.get('nthreads', 5),
                                   'intercept': inst.get('intercept'), 'rt_defs': inst.get('rt_defs', {}),
                                   'devirt': inst.get('devirt'),
-                                  'typed_alloc': inst.get('typed_alloc', True)})
+                                  'typed_alloc': inst.get('typed_alloc', True),
+                                  'ptrdiff': inst.get('ptrdiff')})
     except llir.Unsupported as e:
         raise Inconclusive('translator: unsupported construct: %s' % e)
     allowed = set(inst.get('allow_externals', []))
@@ -577,9 +578,19 @@ def run_instance(inst, tier):
         m2 = run_cbmc(inst, prep, False, trace=[r['property'] for r in fails][:8])
         if m2['status'] == 'done':
             byid = {r['property']: r for r in m2['results']}
+            confirmed = []
             for r in fails:
-                if r['property'] in byid and byid[r['property']].get('trace'):
-                    r['trace'] = byid[r['property']]['trace']
+                r2 = byid.get(r['property'])
+                if r2 is not None and r2.get('status') != 'FAILURE':
+                    # the sliced formula failed but the full (unsliced) one does not: --slice-formula
+                    # dropped an assumption (e.g. a model bound) that makes the path infeasible.
+                    # Not a counterexample; recorded, never reported.
+                    rec.setdefault('sliced_only', []).append(r['description'])
+                    continue
+                if r2 is not None and r2.get('trace'):
+                    r['trace'] = r2['trace']
+                confirmed.append(r)
+            fails = confirmed
             rec['trace_run_s'] = m2.get('time_s')
     rec['by_class'] = {}
     for r in props:
@@ -592,7 +603,7 @@ def run_instance(inst, tier):
     for r in fails:
         c = classify(r['description'])
         tr = r.get('trace', [])
-        f = {'class': c, 'description': r['description'], 'property': r['property'],
+        f = {'class': c, 'description': r['description'], 'property': r['property'], 'traced': bool(tr),
              'inputs': extract_inputs(tr),
              'schedule': (extract_schedule_seq(tr) if inst.get('engine') == 'cbmc-seq'
                           else extract_schedule(tr, prep['site_lines'], prep['cfile'])),
